@@ -61,7 +61,16 @@ pub fn fw_admissible(case: &FwCase) -> bool {
         // scripted words go into samplers only for constant distributions (adversarial words inside
         // samplers are C13's domain, and meet its listed findings there)
         && (case.words.is_empty() || case.machines.iter().all(|m| m.all_dists_constant()))
-        && case.machines.iter().all(|m| m.states.len() <= 16 && m.build().is_ok())
+        && case.machines.iter().all(|m| m.states.len() <= 16 && canonical(m))
+}
+
+/// The spec builds, and is the representation the generators produce (what reading the built
+/// machine back gives): no out-of-range enum codes, duplicate or empty event entries.
+pub fn canonical(m: &crate::spec::MachineSpec) -> bool {
+    match m.build() {
+        Ok(b) => crate::spec::MachineSpec::from_machine(&b) == *m,
+        Err(_) => false,
+    }
 }
 
 pub fn sim_admissible(c: &crate::simrun::SimCase) -> bool {
@@ -76,7 +85,7 @@ pub fn sim_admissible(c: &crate::simrun::SimCase) -> bool {
         && (1..=3000).contains(&c.max_sim_iterations)
         && c.client.len() <= 4
         && c.server.len() <= 4
-        && c.client.iter().chain(c.server.iter()).all(|m| m.states.len() <= 8 && m.build().is_ok() && light(m))
+        && c.client.iter().chain(c.server.iter()).all(|m| m.states.len() <= 8 && canonical(m) && light(m))
 }
 
 /// sampled values stay in the microsecond-to-second range (the simulator adds them to Instants)
